@@ -11,7 +11,8 @@ RULE = ("one generated case list (convert / + / - / == / < / sorted over equal-d
         "space, fresh unconnected base units, partially connected compounds, product-defined units) is executed by "
         "two fresh children, `python` and `python -O`; distinct = (operation, shape class of both sides, connectivity "
         "class); non-trivial = the two sides are different units"
-        " Where nothing connects the two sides the outcome is prescribed (ConversionNotFound / == False / TypeError), zero-against-zero questions are the first thing each process asks about its new units, and product-defined units of the user's own declared with Decimal and with float numbers meet in impossible conversions.")
+        " Where nothing connects the two sides the outcome is prescribed (ConversionNotFound / == False / TypeError), zero-against-zero questions are the first thing each process asks about its new units, and product-defined units of the user's own declared with Decimal and with float numbers meet in impossible conversions."
+        " One side may carry a remainder without a dimension (an unconnected energy or force unit over base units of that dimension): nothing to convert it with.")
 ASSUMPTIONS = [
     "permitted failures: ConversionNotFound from in_unit/+/-; TypeError from ordering; == never raises",
     "outcomes are compared by exception type name and by repr of the returned magnitude",
